@@ -15,16 +15,14 @@ For a *targeted* mistake (one ill-formed value / one reference of the wrong type
 not a definition) more is demanded: the case must be rejected (exit 65, or HARD_ERROR when the instruction runs) and
 the location must be the first line of that very instruction.
 """
-import json
 import os
 import random
 import re
-import subprocess
-import sys
+import signal
 
 from hypothesis import strategies as st
 
-from vlib import driver
+from vlib import driver, fuzz
 from vlib.gen import c18_grammar as G
 from vlib.gen import c18_mutate as M
 from vlib.ref import c18_report as R
@@ -72,6 +70,10 @@ def _materialise(ws, files):
 
 def observe(files):
     """-> dict(exit, out, err, exception, timed_out, root)"""
+    if signal.getsignal(signal.SIGALRM) is None:
+        # inside a libFuzzer campaign SIGALRM belongs to a handler Python does not know; the driver restores the
+        # handler it found, which must be one Python can name
+        signal.signal(signal.SIGALRM, signal.SIG_IGN)
     for attempt, timeout in enumerate((20.0, 60.0)):
         with driver.Workspace() as ws:
             _materialise(ws, files)
@@ -135,6 +137,14 @@ def classify_internal(files, tb, err=None):
         # the missing name is defined by a `def` of the case.
         if re.search(r'(^|\n)\s*def\s+\S+\s+%s\s*=' % re.escape(m.group(1)), '\n'.join(texts)):
             return 'KF-C18-5'
+        return None
+    if inner == ('exactly_lib/impls/types/path/parse_path.py', '_first_fragment_is_symbol_that_can_act_as_path') \
+            and tb['type'] == 'IndexError' and (err or '').startswith('In [act]'):
+        # KF-C18-6: an empty string where a PATH is expected makes the path parser index an empty list; instruction
+        # parsers turn that into SYNTAX_ERROR ("list index out of range"), the act phase parser does not.
+        # Model: the report is about [act] and the text contains an empty quoted string.
+        if re.search(r'(^|\s)(""|\'\')(\s|$)', '\n'.join(texts)):
+            return 'KF-C18-6'
         return None
     in_replace = any(f[0] == 'exactly_lib/impls/types/string_transformer/impl/replace/impl.py' for f in tb['frames'])
     in_template = any(f[1] in ('parse_template', '_compile_template', 'expand_template', '_subx', 'template')
@@ -504,106 +514,103 @@ def check_truncations(case) -> Verdict:
     return Verdict(True, nontrivial=bool(keys), key='\x00'.join(keys) or None, labels=labels)
 
 
-# ---- byte strings decoded into grammar choices and ops (shared with the coverage-guided campaign) ----------------------------
+# ---- byte strings decoded into grammar choices and ops; the coverage-guided campaign (vlib/fuzz.py) ----------------------------
 _BYTE_OPS = M.GENERIC_OPS + M.TARGETED_OPS
+_BYTE_FOCI = [None, None, None, 'int', 'regex', 'repl', 'range', 'glob', 'ref']
 
 
 def decode_bytes(data: bytes):
-    """bytes -> case of check_generic: byte 0 selects the focus, then 1..3 mutants of 1..2 ops each (fixed width), the
-    rest drives the grammar"""
+    """bytes -> case {'doc', 'muts': [one mutant of 1..3 ops], 'chars'}: byte 0 selects the focus of the grammar,
+    byte 1 the number of ops, then 7 bytes per op (fixed width), the rest drives the grammar productions.  Bytes
+    only ever *select* productions / ops / vocabulary entries."""
     nxt = G.byte_choices(data)
-    focus = [None, None, None, 'int', 'regex', 'repl', 'range', 'glob', 'ref'][nxt(9)]
-    muts = []
-    for _ in range(1 + nxt(3)):
-        muts.append([M.choice_op(nxt, _BYTE_OPS) for _ in range(1 + (1 if nxt(4) == 3 else 0))])
+    focus = _BYTE_FOCI[nxt(len(_BYTE_FOCI))]
+    n_ops = [1, 1, 1, 2, 2, 3][nxt(6)]
+    ops = [M.choice_op(nxt, _BYTE_OPS) for _ in range(n_ops)]
     doc = G.build_document_g(G.ChoiceG(nxt, focus))
-    return {'doc': doc, 'muts': muts, 'chars': None}
+    if M.mutate(doc, ops)[0] == M.parent_texts(doc):
+        # no eligible position for the selected ops: a deletion is always possible
+        ops = [{'op': 'del', 'f': 0, 'p': ops[0]['p'], 'q': 0, 'w': 0}]
+    return {'doc': doc, 'muts': [ops], 'chars': None}
 
 
-def check_bytes(case) -> Verdict:
-    return check_generic(decode_bytes(bytes.fromhex(case['hex'])))
+def check_lean(case) -> Verdict:
+    """the generic oracle on the mutants only (the parent is not run): what the campaign and lean_mutants use"""
+    doc = case['doc']
+    parent_files = M.parent_texts(doc)
+    labels, keys, known_hits = [], [], []
+    for mutant in case['muts']:
+        files, infos = M.mutate(doc, mutant, case.get('chars'))
+        opname = '+'.join(op['op'] for op in mutant) if len(mutant) <= 2 else 'multi'
+        if files == parent_files:
+            labels.append('identity-mutant')
+            continue
+        refused = [g for g in (M.gate(t) for t in files.values()) if g]
+        if refused:
+            labels.append('gate-refused:' + refused[0])
+            continue
+        obs = observe(files)
+        key = '|'.join(files[k] for k in sorted(files))
+        keys.append(key)
+        labels += ['op:' + opname, 'out:' + _outcome_label(obs)]
+        if obs['exit'] == 65:
+            labels.append('cat:' + _err_category(obs))
+        prob = generic_problem(files, obs)
+        if prob and not prob[2]:
+            return _fail(prob[0], prob[1], files, obs, labels, key, extra={'mutant_ops': mutant})
+        if prob:
+            labels.append('known:' + prob[2])
+            known_hits.append((prob, files, obs, key, {'mutant_ops': mutant}))
+    if known_hits:
+        (b, d, k), kfiles, kobs, kkey, kextra = known_hits[0]
+        return _fail(b, d, kfiles, kobs, labels, kkey, known=k, extra=kextra)
+    return Verdict(True, nontrivial=bool(keys), key='\x00'.join(keys) or None, labels=labels)
 
 
-def strategy_bytes(tier):
-    return st.fixed_dictionaries({'hex': st.binary(min_size=0, max_size=300).map(lambda b: b.hex())})
+def strategy_lean(tier):
+    return st.binary(min_size=0, max_size=300).map(decode_bytes)
 
 
-# ---- coverage-guided campaign (atheris / libFuzzer), one OS process per shard ----------------------------------------------------
-def enum_campaign(tier):
-    try:
-        base = int(os.environ.get('VERIF_SEED', '1') or '1')
-    except ValueError:
-        base = 1
-    scale = float(os.environ.get('VERIF_SCALE', '1'))
-    if tier == 'quick':
-        return [{'shard': 0, 'runs': max(20, int(150 * scale)), 'seed': base * 1000}]
-    return [{'shard': k, 'runs': max(50, int(6000 * scale)), 'seed': base * 1000 + k} for k in range(16)]
+def _render_case(case):
+    files = M.parent_texts(case['doc'])
+    out = {'parent': files['t.case'], 'mutants': []}
+    for mutant in case['muts'][:2]:
+        f, _ = M.mutate(case['doc'], mutant, case.get('chars'))
+        out['mutants'].append({'ops': [op['op'] for op in mutant], 'text': f['t.case']})
+    return out
 
 
-def check_campaign(case) -> Verdict:
-    verif = driver.VERIF_DIR
-    out_dir = os.path.join(driver.work_base(), 'fuzz-%d' % case['shard'])
-    os.makedirs(out_dir, exist_ok=True)
-    findings = os.path.join(out_dir, 'findings.jsonl')
-    env = dict(os.environ)
-    env['PYTHONPATH'] = os.pathsep.join([driver.REPO_SRC, verif, os.path.join(verif, '.deps')])
-    env['VERIF_WORK'] = os.path.join(out_dir, 'work')
-    env['PYTHONWARNINGS'] = 'ignore'
-    cmd = [driver.PYTHON, '-B', '-m', 'props.c18_fuzz', findings, str(case['runs']), str(case['seed'])]
-    try:
-        p = subprocess.run(cmd, cwd=verif, env=env, stdin=subprocess.DEVNULL, stdout=subprocess.PIPE,
-                           stderr=subprocess.STDOUT, timeout=3600)
-    except subprocess.TimeoutExpired:
-        return Verdict(inconclusive=True, labels=['campaign-timeout'])
-    log = p.stdout.decode('utf-8', errors='replace')
-    stats = {}
-    stats_path = findings + '.stats'
-    if os.path.exists(stats_path):
-        with open(stats_path) as f:
-            stats = json.load(f)
-    labels = ['campaign-shard']
-    if not stats:
-        return fail('campaign-did-not-run', {'cmd': cmd, 'exit': p.returncode, 'log': log[-3000:]},
-                    labels=labels)
-    # labels carry counts: one label per 100 executions / per 100 coverage features
-    labels += ['fuzz-executions-x100'] * (stats.get('executions', 0) // 100)
-    cov = 0
-    for line in log.split('\n'):
-        if ' cov: ' in line:
-            try:
-                cov = max(cov, int(line.split(' cov: ')[1].split()[0]))
-            except (ValueError, IndexError):
-                pass
-    labels += ['fuzz-coverage-x100'] * (cov // 100)
-    for k, v in sorted(stats.get('labels', {}).items()):
-        if k.startswith('out:') or k.startswith('known:'):
-            labels += ['fuzz-' + k] * min(v, 2000)
-    recs = []
-    if os.path.exists(findings):
-        with open(findings) as f:
-            recs = [json.loads(l) for l in f if l.strip()]
-    key = 'campaign|%d|%d|%d' % (case['shard'], case['runs'], case['seed'])
-    known = [r for r in recs if r.get('known')]
-    bad = [r for r in recs if not r.get('known')]
-    if bad:
-        r0 = min(bad, key=lambda r: len(r['hex']))
-        return fail('campaign/' + r0['bucket'], {'replay_as': {'sub': 'byte_cases', 'case': {'hex': r0['hex']}},
-                                                 'detail': r0['detail'], 'buckets': sorted(set(r['bucket'] for r in bad))},
-                    labels=labels, nontrivial=True, key=key)
-    if known:
-        r0 = min(known, key=lambda r: len(r['hex']))
-        return Verdict(ok=False, known=r0['known'], bucket='campaign/' + r0['bucket'],
-                       detail={'replay_as': {'sub': 'byte_cases', 'case': {'hex': r0['hex']}}, 'detail': r0['detail']},
-                       labels=labels, nontrivial=True, key=key)
-    return Verdict(True, nontrivial=True, key=key, labels=labels,
-                   sample={'shard': case, 'executions': stats.get('executions'), 'coverage': cov})
+def _seed(focus, n_ops, ops, tail=b''):
+    b = bytes([_BYTE_FOCI.index(focus), [1, 1, 1, 2, 2, 3].index(n_ops)])
+    for name, p, q, w in ops:
+        b += bytes([_BYTE_OPS.index(name), 0, p >> 8, p & 255, q, w >> 8, w & 255])
+    return b + tail
 
+
+_CAMPAIGN_SEEDS = [
+    b'',
+    _seed(None, 1, [('del', 7, 0, 0)], bytes(range(1, 60))),
+    _seed('int', 1, [('badval', 3, 1, 0)], bytes([3, 1, 4, 1, 5, 9, 2, 6, 5, 3, 5, 8, 9, 7, 9])),
+    _seed('regex', 1, [('badval', 1, 1, 2)], bytes([2, 7, 1, 8, 2, 8, 1, 8, 2, 8, 4, 5, 9, 0, 4, 5])),
+    _seed('repl', 1, [('badval', 1, 1, 1)], bytes([1, 4, 1, 4, 2, 1, 3, 5, 6, 2, 3, 7, 3, 0, 9, 5])),
+    _seed('ref', 1, [('wrongref', 5, 1, 9)], bytes([1, 7, 3, 2, 0, 5, 0, 8, 0, 7, 5, 6, 8, 8, 7, 7])),
+    _seed(None, 2, [('quote', 9, 3, 1), ('trunc', 40, 2, 0)], bytes([5] * 30)),
+    _seed(None, 1, [('badhdr', 2, 0, 3)], bytes([9, 8, 7, 6, 5, 4, 3, 2, 1] * 4)),
+    _seed('glob', 1, [('extreme', 0, 1, 7)], bytes([6, 6, 2, 6, 0, 7, 0, 0, 4, 0, 1, 2, 2, 1])),
+]
 
 SUBS = [
-    Sub('mutated_cases', check_generic, strategy=strategy_generic, budget={'quick': 1600, 'thorough': 48000}),
-    Sub('bad_values', check_generic, strategy=strategy_bad_values, budget={'quick': 1300, 'thorough': 30000}),
+    Sub('mutated_cases', check_generic, strategy=strategy_generic, budget={'quick': 1600, 'thorough': 48000},
+        render=_render_case),
+    Sub('bad_values', check_generic, strategy=strategy_bad_values, budget={'quick': 1300, 'thorough': 30000},
+        render=_render_case),
     Sub('truncate_every_char', check_truncations, enumerate=enum_truncations, exhaustive=False),
-    Sub('byte_cases', check_bytes, strategy=strategy_bytes, budget={'quick': 300, 'thorough': 8000}),
-    Sub('atheris_campaign', check_campaign, enumerate=enum_campaign, exhaustive=False,
-        shards={'quick': 1, 'thorough': 16}),
+    Sub('lean_mutants', check_lean, strategy=strategy_lean, budget={'quick': 600, 'thorough': 20000},
+        render=_render_case),
+    fuzz.fuzz_sub('coverage_campaign', 'props.c18_mistakes', 'check_lean', 'decode_bytes', 'lean_mutants',
+                  runs={'quick': 800, 'thorough': 100000}, shards={'quick': 4, 'thorough': 16}, max_len=300,
+                  instrument=('exactly_lib.section_document', 'exactly_lib.impls', 'exactly_lib.processing',
+                              'exactly_lib.type_val_deps', 'exactly_lib.symbol', 'exactly_lib.execution',
+                              'exactly_lib.util.str_', 'exactly_lib.util.parse', 'exactly_lib.util.cli_syntax'),
+                  seeds=_CAMPAIGN_SEEDS, timeout_s=3000),
 ]
